@@ -22,6 +22,7 @@ type procModel struct {
 	fileText   StrV
 	catchDepth int
 	lineText   []StrV
+	stdinMode  int // 0: not read yet, 1: by lines, 2: by bytes (a Scanner with its own split function)
 }
 
 func (w *Worker) harnessIntrinsic(st *State, f *Frame, x ssa.Value, name string, args []Value) {
@@ -233,6 +234,7 @@ func (w *Worker) harnessIntrinsic(st *State, f *Frame, x ssa.Value, name string,
 		st.trace = nil
 		st.stdinPos = 0
 		st.exited = false
+		w.proc(st).stdinMode = 0
 		w.proc(st).catchDepth = len(st.frames)
 		w.invoke(st, f, nil, mainPkg.Func("main"), nil, nil)
 	case "verifProcStdout", "verifProcStderr":
@@ -552,6 +554,10 @@ func (w *Worker) readerReadLine(st *State, set func(Value), r Ptr) {
 func (w *Worker) scannerScan(st *State, set func(Value), r Ptr) {
 	p := w.proc(st)
 	obj := st.heap[r.id].(StructV)
+	if split, ok := obj[3].(FuncV); ok && split.fn != nil {
+		w.scannerScanSplit(st, set, r, split)
+		return
+	}
 	if stopped, _ := obj[2].(Term).boolVal(); stopped || st.stdinPos >= p.stdinLines {
 		set(mkBool(false))
 		return
@@ -561,19 +567,141 @@ func (w *Worker) scannerScan(st *State, set func(Value), r Ptr) {
 	if p.lineText != nil && st.stdinPos < len(p.lineText) {
 		if text, ok := p.lineText[st.stdinPos].concrete(); ok {
 			if mx, _ := obj[1].(Term).intVal(); int64(len(text)) >= mx {
-				st.heap[r.id] = StructV{obj[0], obj[1], mkBool(true)}
+				nobj := append(StructV{}, obj...)
+				nobj[2] = mkBool(true)
+				st.heap[r.id] = nobj
 				set(mkBool(false))
 				return
 			}
 		}
 	}
-	st.heap[r.id] = StructV{mkBV(uint64(st.stdinPos), 64), obj[1], obj[2]}
+	nobj := append(StructV{}, obj...)
+	nobj[0] = mkBV(uint64(st.stdinPos), 64)
+	st.heap[r.id] = nobj
 	st.stdinPos++
 	set(mkBool(true))
 }
 
+// stdinBytes: the whole of stdin as bytes (concrete line texts only).
+func (w *Worker) stdinBytes(st *State) []byte {
+	p := w.proc(st)
+	var b []byte
+	for k := 0; k < p.stdinLines; k++ {
+		lt := stdinLine(k)
+		if p.lineText != nil {
+			lt = p.lineText[k]
+		}
+		text, ok := lt.concrete()
+		if !ok {
+			panic(engineErr("a Scanner with its own split function over symbolic stdin lines"))
+		}
+		b = append(b, text...)
+		if k < p.stdinLines-1 || p.stdinNL {
+			b = append(b, '\n')
+		}
+	}
+	return b
+}
+
+// scannerScanSplit: Scan of a Scanner that was given a split function, byte by byte as bufio
+// does it. The split function — the repository's own code — runs on the bytes read so far;
+// when it asks for more, the operating system delivers the next 1..all remaining bytes (every
+// size is explored: a fork per size), or end of input. In this mode the position in stdin is
+// counted in bytes, and only this scanner may read stdin in the process.
+func (w *Worker) scannerScanSplit(st *State, set func(Value), r Ptr, split FuncV) {
+	all := w.stdinBytes(st)
+	p := w.proc(st)
+	if p.stdinMode == 1 {
+		panic(engineErr("stdin read both by lines and by bytes in one process"))
+	}
+	p.stdinMode = 2
+	for rounds := 0; rounds < 10000; rounds++ {
+		obj := st.heap[r.id].(StructV)
+		buf, _ := obj[4].(StrV).concrete()
+		eof, _ := obj[6].(Term).boolVal()
+		if len(buf) > 0 || eof {
+			data := SliceV{}
+			if len(buf) > 0 {
+				elems := make([]Value, len(buf))
+				for i := 0; i < len(buf); i++ {
+					elems[i] = mkBV(uint64(buf[i]), 8)
+				}
+				data = st.newSlice(elems, len(elems))
+			}
+			res := w.callSync(st, split.fn, []Value{data, mkBool(eof)}, split.bindings...).(Tuple)
+			adv, ok := res[0].(Term).intVal()
+			if !ok {
+				panic(engineErr("split function returned a symbolic advance"))
+			}
+			if eu, isU := res[2].(*Union); isU {
+				if k, c := eu.constKind(); !c || k != KNil {
+					panic(engineErr("split function returned an error"))
+				}
+			}
+			if adv < 0 || int(adv) > len(buf) {
+				panic(engineErr("split function advanced beyond the data"))
+			}
+			tok := res[1].(SliceV)
+			nobj := append(StructV{}, obj...)
+			nobj[4] = strLit(buf[adv:])
+			if tok.id != 0 || adv > 0 && tok.n > 0 {
+				nobj[5] = strLit(string(concreteBytes(st, tok)))
+				st.heap[r.id] = nobj
+				set(mkBool(true))
+				return
+			}
+			if tok.id != 0 {
+				nobj[5] = StrV{}
+				st.heap[r.id] = nobj
+				set(mkBool(true))
+				return
+			}
+			st.heap[r.id] = nobj
+			if adv > 0 {
+				continue // bytes skipped, no token yet
+			}
+			if eof {
+				set(mkBool(false))
+				return
+			}
+		}
+		// more data: a read delivers the next 1..remaining bytes, or reports end of input
+		rem := len(all) - st.stdinPos
+		obj = st.heap[r.id].(StructV)
+		if rem <= 0 {
+			nobj := append(StructV{}, obj...)
+			nobj[6] = mkBool(true)
+			st.heap[r.id] = nobj
+			continue
+		}
+		cur, _ := obj[4].(StrV).concrete()
+		for take := 1; take < rem; take++ {
+			o := st.clone()
+			o.nondets = append(o.nondets, NondetRec{Kind: "bytechunk", Val: int64(take)})
+			oobj := append(StructV{}, o.heap[r.id].(StructV)...)
+			oobj[4] = strLit(cur + string(all[st.stdinPos:st.stdinPos+take]))
+			o.heap[r.id] = oobj
+			o.stdinPos += take
+			of := o.top()
+			of.idx--
+			o.instrs--
+			w.push(o)
+		}
+		st.nondets = append(st.nondets, NondetRec{Kind: "bytechunk", Val: int64(rem)})
+		nobj := append(StructV{}, obj...)
+		nobj[4] = strLit(cur + string(all[st.stdinPos:]))
+		st.heap[r.id] = nobj
+		st.stdinPos += rem
+	}
+	panic(engineErr("Scanner made no progress"))
+}
+
 func (w *Worker) scannerText(st *State, set func(Value), r Ptr) {
 	obj := st.heap[r.id].(StructV)
+	if split, ok := obj[3].(FuncV); ok && split.fn != nil {
+		set(obj[5].(StrV))
+		return
+	}
 	k, _ := obj[0].(Term).intVal()
 	p := w.proc(st)
 	if p.lineText != nil && int(k) < len(p.lineText) {
